@@ -26,7 +26,7 @@ permitted), the first token begins at 0, the last ends at the original length, e
 a character boundary of the original text, and the surfaces concatenate to the original text. -/
 theorem surfaces_partition (o : List Nat) (hne : o ≠ []) (h0 : BoOf o 0)
     (bs : List (List (Edit Nat))) (l : List (P Nat))
-    (hok : BatchesOk isStart (identFrom 0 o) bs) (h : commitAll (identFrom 0 o) bs = some l)
+    (hok : BatchesOk isStart (identFrom 0 o) bs) (lv : LenV) (h : commitAllV lv (identFrom 0 o) bs = some l)
     (cuts : List Nat) (hm : Mono (0 :: cuts))
     (hlast : (0 :: cuts).getLast (by simp) = (textOf l).length)
     (hb : ∀ c ∈ cuts, ∀ hc : c < l.length, isB isStart l[c]) :
@@ -35,7 +35,7 @@ theorem surfaces_partition (o : List Nat) (hne : o ≠ []) (h0 : BoOf o 0)
     valAt l ((0 :: cuts).getLast (by simp)) = o.length ∧
     (∀ c ∈ cuts, c < l.length → BoOf o (valAt l c)) ∧
     (∀ c ∈ cuts, c ≤ (textOf l).length → valAt l c ≤ o.length) := by
-  have hi := commitAll_inv isStart (BoOf o) o.length h0 bs _ l (ident_inv o hne) hok h
+  have hi := commitAllV_inv lv isStart (BoOf o) o.length h0 bs _ l (ident_inv o hne) hok h
   refine ⟨surfaces_concat isStart o l hi cuts hm hlast, hi.first, ?_, ?_, ?_⟩
   · rw [hlast]; exact inv_last hi
   · intro c hc hlt; exact inv_boundary hi c hlt (hb c hc hlt)
@@ -45,9 +45,9 @@ theorem surfaces_partition (o : List Nat) (hne : o ≠ []) (h0 : BoOf o 0)
 go backwards in the original text) -/
 theorem images_monotone (o : List Nat) (hne : o ≠ []) (h0 : BoOf o 0)
     (bs : List (List (Edit Nat))) (l : List (P Nat))
-    (hok : BatchesOk isStart (identFrom 0 o) bs) (h : commitAll (identFrom 0 o) bs = some l)
+    (hok : BatchesOk isStart (identFrom 0 o) bs) (lv : LenV) (h : commitAllV lv (identFrom 0 o) bs = some l)
     (i j : Nat) (hij : i ≤ j) (hj : j < l.length) : valAt l i ≤ valAt l j := by
-  have hi := commitAll_inv isStart (BoOf o) o.length h0 bs _ l (ident_inv o hne) hok h
+  have hi := commitAllV_inv lv isStart (BoOf o) o.length h0 bs _ l (ident_inv o hne) hok h
   exact mono_valAt hi.mono hij hj
 
 /-- the pieces are exactly the per-token surfaces: piece `k` is the slice between the images of
@@ -67,7 +67,7 @@ concatenate to the original text, the first token begins at 0, the last ends at 
 every token boundary is a character boundary of the original text and lies inside it. -/
 theorem lattice_tokens_partition (o : List Nat) (hne : o ≠ []) (h0 : BoOf o 0)
     (bs : List (List (Edit Nat))) (l : List (P Nat))
-    (hok : BatchesOk isStart (identFrom 0 o) bs) (h : commitAll (identFrom 0 o) bs = some l)
+    (hok : BatchesOk isStart (identFrom 0 o) bs) (lv : LenV) (h : commitAllV lv (identFrom 0 o) bs = some l)
     (hstart : BoOf (textOf l) 0)
     (conn : Nat → Nat → Int) (F : List Vit.Node) (hwf : Vit.WF F)
     (hs : F.Pairwise (fun a b => a.b ≤ b.b)) (v : Int)
@@ -81,7 +81,7 @@ theorem lattice_tokens_partition (o : List Nat) (hne : o ≠ []) (h0 : BoOf o 0)
     (∀ c ∈ cuts, valAt l c ≤ o.length) ∧
     (∀ n ∈ p, n.e < (c2b (textOf l)).length) := by
   intro p cuts
-  have hi := commitAll_inv isStart (BoOf o) o.length h0 bs _ l (ident_inv o hne) hok h
+  have hi := commitAllV_inv lv isStart (BoOf o) o.length h0 bs _ l (ident_inv o hne) hok h
   have hlenl := shape_length hi.shape
   obtain ⟨_, _, _, hmono, hlast, hin⟩ := C02.path_contiguous conn F hwf hs (nchars (textOf l)) v heos
     (c2b (textOf l)) (c2b_spec (textOf l)).1 (by rw [c2b_length]; omega)
@@ -96,7 +96,7 @@ theorem lattice_tokens_partition (o : List Nat) (hne : o ≠ []) (h0 : BoOf o 0)
   have hle : ∀ c ∈ cuts, c ≤ (textOf l).length := by
     intro c hc
     rcases hbo c hc with h1 | ⟨h1, _⟩ <;> omega
-  obtain ⟨r1, r2, r3, r4, r5⟩ := surfaces_partition o hne h0 bs l hok h cuts hmono hlast
+  obtain ⟨r1, r2, r3, r4, r5⟩ := surfaces_partition o hne h0 bs l hok lv h cuts hmono hlast
     (fun c hc hlt => isB_of_boOf hi.shape c (hbo c hc) hlt)
   exact ⟨r1, r2, r3, fun c hc => r4 c hc (by have := hle c hc; omega), fun c hc => r5 c hc (hle c hc), hin⟩
 
